@@ -28,7 +28,7 @@ from contracts.histories import tree_snapshot
 from pyvc.contracts import Contract
 from pyvc.core import fresh_name
 
-OPS = ("points", "group", "data", "pgroup", "reuse_same", "reuse_cross", "reuse_data", "reuse_pg", "copy_same", "copy_other", "copy_other_again", "remove", "remove_other", "recreate", "reopen", "gc")
+OPS = ("points", "group", "data", "pgroup", "reuse_same", "reuse_cross", "reuse_data", "reuse_pg", "pg_reuse", "copy_same", "copy_other", "copy_other_again", "remove", "remove_other", "recreate", "reopen", "gc")
 
 
 def _live(ws):
@@ -135,6 +135,12 @@ def run_history(case):
                 if pgs:
                     u = pick(pgs).uid
                     bad = refused(ws, tag, lambda: ContainerGroup.create(ws, name=fresh("dupG"), uid=u))
+            elif op == "pg_reuse" and objs:
+                # a property group asked to carry the identifier of a live object (or data)
+                o = pick(objs)
+                kids = [c for c in o.children if hasattr(c, "values")]
+                u = (kids[0] if kids and a % 2 else o).uid
+                bad = refused(ws, tag, lambda: o.create_property_group(name=fresh("duppg"), uid=u))
             elif op in ("copy_same", "copy_other", "copy_other_again") and objs:
                 o = pick(objs)
                 src_ids = {o.uid} | {c.uid for c in o.children} | {pg.uid for pg in (o.property_groups or [])}
@@ -220,8 +226,8 @@ class IdentifierHistories(Contract):
     has_native = True
     props = ("C06",)
     bounded_scope = ("two file-backed workspaces; sequences of 5-10 operations over {create points/group/data/property group, create with an identifier in use by the same kind / "
-                     "another kind / a property group, data with its parent's or a group's identifier, copy within / into the other workspace (twice, also after removing the earlier copy there), remove, re-create with the "
-                     "freed identifier, re-open, gc}: 14 fixed + 60 seeded (quick) / 800 seeded (thorough); uniqueness, lookup, refusal-without-side-effects and type sharing after every step")
+                     "another kind / a property group, property group with an object's or data's identifier, data with its parent's or a group's identifier, copy within / into the other workspace (twice, also after removing the earlier copy there), remove, re-create with the "
+                     "freed identifier, re-open, gc}: 16 fixed + 60 seeded (quick) / 800 seeded (thorough); uniqueness, lookup, refusal-without-side-effects and type sharing after every step")
 
     FIXED = [
         [("points", 0), ("reuse_same", 0)],
@@ -230,6 +236,8 @@ class IdentifierHistories(Contract):
         [("group", 0), ("points", 0), ("reuse_data", 0), ("reopen", 0)],
         [("group", 0), ("points", 0), ("reuse_same", 0), ("reopen", 0)],
         [("points", 0), ("data", 0), ("pgroup", 0), ("reuse_pg", 0)],
+        [("points", 0), ("pg_reuse", 0), ("reopen", 0)],
+        [("points", 0), ("data", 0), ("pg_reuse", 1), ("reopen", 0)],
         [("points", 0), ("data", 0), ("pgroup", 0), ("copy_same", 0), ("copy_same", 1)],
         [("points", 0), ("data", 0), ("pgroup", 0), ("copy_other", 0), ("copy_other_again", 0)],
         [("points", 0), ("remove", 0), ("recreate", 0), ("reuse_same", 0)],
